@@ -619,9 +619,10 @@ impl Ctx {
             self.s.line(&l, &r);
             self.follow.push(l);
         }
-        if parser == "espec" && data.is_ascii() {
+        if parser == "espec" && data.is_ascii() && (data.len() <= 65536 || !self.quick) {
             // result-level tie of the ESpec grammar model: depth of the parsed tree, or the position at
             // which the nesting guard refused, or "other". Self-contained line (edits of the empty input).
+            // (quick tier: inputs up to 64 KiB; the `run` line above predicts ok|err for all of them)
             let et0 = if seed_id == "empty" { et.clone() } else { edits_text(&[Edit::App(data.clone())]) };
             let l = format!("espec {et0}");
             self.s.line(&l, &espec_resp(&obs));
@@ -1519,6 +1520,261 @@ fn enc_wellformed(name: u64, iv: &[u8], et: u8, plain: &[u8], index: usize) -> V
     d
 }
 
+// ---------------------------------------------------------------------------------------------
+// recursion families: EVERY recursive production of every recursive grammar, nested across the
+// parser's own limit and far beyond it (the worker's parsing thread has a 1 MiB stack)
+// ---------------------------------------------------------------------------------------------
+/// the recursive productions of the ESpec grammar as (tag, text before the nested spec, text after
+/// it): plain `b:<spec>`; the brace-less shorthand with a size spec (size, size+unit+count,
+/// size+unit+`*`, `*`); one chunk of a braced table (every chunk-head form; as the only, the first
+/// and a later chunk); `e:{key,iv,<spec>}` (IV of 1, 4 and 8 bytes). Each costs one `parse_espec`
+/// level.
+const ESPEC_PRODS: &[(&str, &str, &str)] = &[
+    ("plain", "b:", ""),
+    ("sized-n", "b:1=", ""),
+    ("sized-kcount", "b:256K*4=", ""),
+    ("sized-krest", "b:16K*=", ""),
+    ("sized-m", "b:1M=", ""),
+    ("sized-star", "b:*=", ""),
+    ("braces-star", "b:{*=", "}"),
+    ("braces-size", "b:{256=", "}"),
+    ("braces-kcount", "b:{1K*2=", "}"),
+    ("braces-starcount", "b:{*3=", "}"),
+    ("braces-later", "b:{1=n,*=", "}"),
+    ("braces-middle", "b:{1=z,2K*3=", ",*=n}"),
+    ("braces-first", "b:{1=", ",*=n}"),
+    ("enc-iv4", "e:{237DA26C65073F42,06FC152E,", "}"),
+    ("enc-iv1", "e:{0123456789abcdef,00,", "}"),
+    ("enc-iv8", "e:{0123456789ABCDEF,0011223344556677,", "}"),
+];
+const ESPEC_CORES: &[&str] = &["n", "z", "z:{9,mpq}", "c:{3}", "g:{5}", "b:{1=n,*=z}", "x", ""];
+
+/// `levels` productions (the block of production indices, cycled) around `core`:
+/// prefix-blockᵐ, the remainder with the core and its closers, closer-blockᵐ (closers reversed)
+fn espec_nest_edits(block: &[usize], levels: usize, core: &str) -> Vec<Edit> {
+    let k = block.len();
+    let (m, rem) = (levels / k, levels % k);
+    let pre: String = block.iter().map(|&i| ESPEC_PRODS[i].1).collect();
+    let post: String = block.iter().rev().map(|&i| ESPEC_PRODS[i].2).collect();
+    let mut mid: String = block[..rem].iter().map(|&i| ESPEC_PRODS[i].1).collect();
+    mid.push_str(core);
+    mid.extend(block[..rem].iter().rev().map(|&i| ESPEC_PRODS[i].2));
+    let mut e = vec![];
+    if m > 0 {
+        e.push(Edit::Rep(m, pre.into_bytes()));
+    }
+    e.push(Edit::App(mid.into_bytes()));
+    if m > 0 && !post.is_empty() {
+        e.push(Edit::Rep(m, post.into_bytes()));
+    }
+    e
+}
+
+/// ESpec: every production alone, every ordered pair of productions alternating, and random
+/// blocks of 3..8 productions, each nested to 62/63/64/65 levels (64 is the last accepted: the core
+/// is the 65th frame at 64 prefixes), 1000 and "far beyond any stack" (100 000 levels, fewer for
+/// long prefixes so that one input stays near 600 KB, never below 20 000).
+fn espec_nesting_cases(c: &mut Ctx, rng: &mut Rng, thorough: bool) {
+    c.seed("empty", vec![]);
+    let np = ESPEC_PRODS.len();
+    let deep = |block: &[usize]| -> usize {
+        let per: usize = block.iter().map(|&i| ESPEC_PRODS[i].1.len() + ESPEC_PRODS[i].2.len()).sum::<usize>().max(1);
+        let target = if block.len() == 1 || thorough { 600_000 } else { 250_000 };
+        (target * block.len() / per).clamp(20_000, 100_000)
+    };
+    let run = |c: &mut Ctx, block: &[usize], levels: usize, core: &str, kind: &str| {
+        let e = espec_nest_edits(block, levels, core);
+        c.case("espec", "empty", &e, kind);
+        c.s.tally(&format!("espec-nest-levels:{}", match levels { 0..=61 => "<62", 62..=65 => "62..65", 66..=4096 => "66..4096", _ => ">4096" }));
+    };
+    let small: &[usize] = if thorough { &[1, 2, 3, 31, 32, 61, 62, 63, 64, 65, 66, 127, 128, 129, 1000, 4096] } else { &[62, 63, 64, 65, 1000] };
+    // 1. every production alone
+    for i in 0..np {
+        for (j, &l) in small.iter().enumerate() {
+            run(c, &[i], l, "n", "espec-nest-one");
+            run(c, &[i], l, ESPEC_CORES[(i + j) % ESPEC_CORES.len()], "espec-nest-one");
+        }
+        run(c, &[i], deep(&[i]), "n", "espec-nest-one");
+        c.s.tally(&format!("espec-nest-prod:{}", ESPEC_PRODS[i].0));
+    }
+    // 2. every ordered pair, alternating
+    for i in 0..np {
+        for j in 0..np {
+            if i == j {
+                continue;
+            }
+            for &l in if thorough { &[63usize, 64, 65, 66, 1000][..] } else { &[63usize, 64, 65][..] } {
+                run(c, &[i, j], l, "n", "espec-nest-pair");
+            }
+            if thorough || j == (i + 1) % np || j == (i + 7) % np {
+                run(c, &[i, j], 1000, "z", "espec-nest-pair");
+            }
+            if j == (i + 1) % np || (thorough && j == (i + 5) % np) {
+                run(c, &[i, j], deep(&[i, j]), "n", "espec-nest-pair");
+            }
+        }
+    }
+    // 3. random blocks
+    for t in 0..if thorough { 200 } else { 40 } {
+        let k = rng.range(3, 8) as usize;
+        let block: Vec<usize> = (0..k).map(|_| rng.below(np as u64) as usize).collect();
+        for l in [62usize, 63, 64, 65, 66] {
+            run(c, &block, l, *rng.pick(ESPEC_CORES), "espec-nest-mix");
+        }
+        run(c, &block, rng.range(67, 3000) as usize, "n", "espec-nest-mix");
+        if t % 4 == 0 {
+            run(c, &block, deep(&block), "n", "espec-nest-mix");
+        }
+    }
+    if thorough {
+        // a million levels through the short brace-less prefixes
+        for i in 0..6 {
+            run(c, &[i], 1_000_000, "n", "espec-nest-one");
+        }
+    }
+}
+
+/// one folder entry of a TVFS path table in each shape `parse_directory` accepts in front of the
+/// node value: (tag, bytes before the 0xFF marker)
+const TVFS_FOLDER_SHAPES: &[(&str, &[u8])] = &[
+    ("bare", &[]),
+    ("lead-sep", &[0]),
+    ("named", &[1, b'a']),
+    ("named-sep", &[1, b'a', 0]),
+    ("lead-sep-named", &[0, 1, b'a']),
+    ("two-frags", &[1, b'a', 2, b'b', b'c']),
+    ("two-frags-sep", &[1, b'a', 0, 1, b'b']),
+    ("empty-frag", &[0, 0]),
+];
+
+/// a path table of `shapes.len()` nested folders (outermost first), each folder optionally preceded
+/// (`before`) or followed (`after`) by a file entry in its parent
+fn tvfs_nested_path(shapes: &[usize], before: bool, after: bool) -> Vec<u8> {
+    let file: &[u8] = &[1, b'f', 0xFF, 0, 0, 0, 1];
+    let mut inner: Vec<u8> = vec![];
+    for &sh in shapes.iter().rev() {
+        let mut d = vec![];
+        if before {
+            d.extend_from_slice(file);
+        }
+        d.extend_from_slice(TVFS_FOLDER_SHAPES[sh].1);
+        d.push(0xFF);
+        d.extend_from_slice(&be32(0x8000_0000 | (inner.len() as u32 + 4)));
+        d.extend_from_slice(&inner);
+        if after {
+            d.extend_from_slice(file);
+        }
+        inner = d;
+    }
+    inner
+}
+
+/// the smallest TVFS file around a path table (empty VFS and container tables behind it)
+fn tvfs_with_path(path: &[u8]) -> Vec<u8> {
+    let mut d = b"TVFS".to_vec();
+    d.extend_from_slice(&[1, 38, 9, 9]); // format_version, header_size, ekey_size, pkey_size
+    d.extend_from_slice(&be32(0)); // flags
+    d.extend_from_slice(&be32(38)); // path_table_offset
+    d.extend_from_slice(&be32(path.len() as u32));
+    d.extend_from_slice(&be32(38 + path.len() as u32)); // vfs offset
+    d.extend_from_slice(&be32(0));
+    d.extend_from_slice(&be32(38 + path.len() as u32)); // cft offset
+    d.extend_from_slice(&be32(0));
+    d.extend_from_slice(&[0, 16]); // max depth
+    d.extend_from_slice(path);
+    d
+}
+
+/// TVFS: the one recursive production (a folder node) in every shape of the entry that carries it,
+/// alone, with file siblings before / after it and in random mixtures, nested to 511..514 folders
+/// (512 is the last accepted) and far beyond (3 000; thorough 30 000 / 200 000).
+fn tvfs_nesting_cases(c: &mut Ctx, rng: &mut Rng, thorough: bool) {
+    c.seed("empty", vec![]);
+    let ns = TVFS_FOLDER_SHAPES.len();
+    let run = |c: &mut Ctx, shapes: &[usize], before: bool, after: bool, kind: &str| {
+        let d = tvfs_with_path(&tvfs_nested_path(shapes, before, after));
+        c.case("tvfs", "empty", &[Edit::App(d)], kind);
+        c.s.tally(&format!("tvfs-nest-levels:{}", match shapes.len() { 0..=510 => "<511", 511..=514 => "511..514", _ => ">514" }));
+    };
+    let near: &[usize] = if thorough { &[1, 2, 255, 256, 510, 511, 512, 513, 514, 515, 1024] } else { &[511, 512, 513, 514] };
+    for sh in 0..ns {
+        for &l in near {
+            run(c, &vec![sh; l], false, false, "tvfs-nest-one");
+        }
+        // named folders make the joined path grow with the depth: keep the far case moderate
+        run(c, &vec![sh; if thorough { 30_000 } else { 3_000 }], false, false, "tvfs-nest-one");
+        for (b, a) in [(true, false), (false, true), (true, true)] {
+            for l in [512usize, 513] {
+                run(c, &vec![sh; l], b, a, "tvfs-nest-sibling");
+            }
+        }
+        c.s.tally(&format!("tvfs-nest-shape:{}", TVFS_FOLDER_SHAPES[sh].0));
+    }
+    for t in 0..if thorough { 60 } else { 12 } {
+        for l in [512usize, 513, 514] {
+            let shapes: Vec<usize> = (0..l).map(|_| rng.below(ns as u64) as usize).collect();
+            run(c, &shapes, t % 3 == 1, t % 3 == 2, "tvfs-nest-mix");
+        }
+        let shapes: Vec<usize> = (0..rng.range(515, 3000) as usize).map(|_| rng.below(ns as u64) as usize).collect();
+        run(c, &shapes, false, false, "tvfs-nest-mix");
+    }
+    // (bare folders 30 000 deep: hand seed `tvfs_nest30000`; the model copies the rest of the table
+    // per level, so the far cases stay moderate in the quick tier)
+    if thorough {
+        run(c, &vec![0; 200_000], false, false, "tvfs-nest-one");
+    }
+}
+
+/// the library-backed recursive grammars behind oracle-only entry points: JSON (product config,
+/// serde_json has its own recursion limit) nested through arrays, objects and both; MIME (V1
+/// replies, mail_parser) nested through multipart bodies and message/rfc822 parts. BPSV, the
+/// `key = value` configs, `.build.info` and all binary table formats other than the TVFS path table
+/// are flat: they have no recursive production.
+fn library_nesting_cases(c: &mut Ctx, thorough: bool) {
+    c.seed("empty", vec![]);
+    let depths: &[usize] = if thorough { &[64, 127, 128, 129, 1000, 100_000, 1_000_000] } else { &[127, 128, 129, 1000, 100_000] };
+    for &n in depths {
+        let forms: [(&[u8], &[u8], &[u8]); 4] = [
+            (b"[", b"1", b"]"),
+            (b"{\"a\":", b"1", b"}"),
+            (b"[{\"a\":", b"1", b"}]"),
+            (b"{\"all\":{\"config\":{\"product\":[", b"1", b"]}}}"),
+        ];
+        for (pre, core, post) in forms {
+            c.case("cfgproduct", "empty", &[Edit::Rep(n, pre.to_vec()), Edit::App(core.to_vec()), Edit::Rep(n, post.to_vec())], "json-nest");
+            // unclosed: the input ends at the deepest point
+            c.case("cfgproduct", "empty", &[Edit::Rep(n, pre.to_vec())], "json-nest");
+        }
+    }
+    let mdepths: &[usize] = if thorough { &[1, 2, 16, 100, 1000, 20_000] } else { &[2, 16, 100, 1000, 5_000] };
+    for &n in mdepths {
+        // multipart inside multipart (same boundary text per level is legal and is the worst case
+        // for a boundary scanner; distinct boundaries per level as well), and message/rfc822 chains
+        let mut same = Vec::new();
+        let mut distinct = Vec::new();
+        let mut rfc = Vec::new();
+        for i in 0..n {
+            same.extend_from_slice(b"Content-Type: multipart/mixed; boundary=\"b\"\r\n\r\n--b\r\n");
+            distinct.extend_from_slice(format!("Content-Type: multipart/mixed; boundary=\"b{i}\"\r\n\r\n--b{i}\r\n").as_bytes());
+            rfc.extend_from_slice(b"Content-Type: message/rfc822\r\n\r\n");
+        }
+        let leaf = b"Content-Type: text/plain\r\nContent-Disposition: version\r\n\r\nRegion!STRING:0|BuildId!DEC:4\nus|5\n\r\n";
+        same.extend_from_slice(leaf);
+        distinct.extend_from_slice(leaf);
+        rfc.extend_from_slice(leaf);
+        for i in (0..n).rev() {
+            same.extend_from_slice(b"--b--\r\n");
+            distinct.extend_from_slice(format!("--b{i}--\r\n").as_bytes());
+        }
+        for (tag, body) in [("same", same), ("distinct", distinct), ("rfc822", rfc)] {
+            for p in MIME_PARSERS {
+                c.case(p, "empty", &[Edit::App(body.clone())], "mime-nest");
+            }
+            c.s.tally(&format!("mime-nest:{tag}"));
+        }
+    }
+}
+
 /// element sizes of the vectors the parsers pre-size (taken by the model as parameters)
 fn cfg_line(c: &mut Ctx) {
     use std::mem::size_of;
@@ -1559,6 +1815,8 @@ fn main() {
 
     if let Some(rp) = &args.replay {
         cfg_line(&mut c);
+        // single-line replays of the nesting families refer to the empty input
+        c.seed("empty", vec![]);
         for l in read_case(rp) {
             if l.starts_with("cfg ") || l.starts_with("keys ") {
                 continue; // sizes and key names always come from the compiled crates / this harness
@@ -1661,6 +1919,10 @@ fn main() {
             c.case("espec", "empty", &[Edit::App(e.into_bytes())], "espec-tokens");
         }
     }
+    // 3e. recursion: every recursive production of every recursive grammar across its limit
+    espec_nesting_cases(&mut c, &mut rng, thorough);
+    tvfs_nesting_cases(&mut c, &mut rng, thorough);
+    library_nesting_cases(&mut c, thorough);
     // 3c. V1 MIME epilogue lines of every length; 3d. encrypted-chunk headers with known key names
     mime_epilogue_cases(&mut c, thorough);
     enc_header_cases(&mut c, thorough);
